@@ -2,7 +2,7 @@
 from rules import tbl_parse_float as T
 from rules import pipeline as P
 from rules import extra as X
-from rules.core import guarded
+from rules.core import guarded, guarded_soft
 
 INFO = {
     "explanation": "Per radix 2..36 (under `radix`; the 2^k subset under `power-of-two`) every power table, Bellerophon table and limit is compared with its mathematical definition; every base that can reach Bigint::pow is shown to be factored into (odd, shift) and served by an explicit table row; beliefs stated only as debug_assert! over the format are checked against what the entry validation admits.",
@@ -28,22 +28,22 @@ def run(col, configs, tier):
         guarded(col, P.rule_slow_fallback, facts)
         guarded(col, P.rule_zero_shortcircuit, facts)
         guarded(col, P.rule_step_bounded_accumulation, facts)
-        guarded(col, X.rule_sticky_flag, facts)
-        guarded(col, X.rule_sticky_scans, facts)
-        guarded(col, X.rule_hi_truncation, facts)
-        guarded(col, X.rule_binary_factor, facts)
-        guarded(col, X.rule_mixed_base_scaling, facts)
-        guarded(col, X.rule_reparse_skips_zeros, facts)
-        guarded(col, X.rule_compare_equal_exhausted, facts)
-        guarded(col, X.rule_compare_decodes, facts)
-        guarded(col, X.rule_exponent_narrowing, facts)
-        guarded(col, X.rule_denormal_shift, facts)
-        guarded(col, X.rule_overflow_check_unconditional, facts)
-        guarded(col, X.rule_power_index_guards, facts)
+        guarded_soft(col, X.rule_sticky_flag, facts)
+        guarded_soft(col, X.rule_sticky_scans, facts)
+        guarded_soft(col, X.rule_hi_truncation, facts)
+        guarded_soft(col, X.rule_binary_factor, facts)
+        guarded_soft(col, X.rule_mixed_base_scaling, facts)
+        guarded_soft(col, X.rule_reparse_skips_zeros, facts)
+        guarded_soft(col, X.rule_compare_equal_exhausted, facts)
+        guarded_soft(col, X.rule_compare_decodes, facts)
+        guarded_soft(col, X.rule_exponent_narrowing, facts)
+        guarded_soft(col, X.rule_denormal_shift, facts)
+        guarded_soft(col, X.rule_overflow_check_unconditional, facts)
+        guarded_soft(col, X.rule_power_index_guards, facts)
         from rules import dispatch
         guarded(col, dispatch.rule_dispatch_table, facts)
         guarded(col, dispatch.rule_check_radix_table, facts)
-        guarded(col, X.rule_bigfloat_bits, facts)
-        guarded(col, X.rule_bellerophon_underflow_order, facts)
-        guarded(col, X.rule_quorem_correction, facts)
-        guarded(col, X.rule_error_accounting, facts)
+        guarded_soft(col, X.rule_bigfloat_bits, facts)
+        guarded_soft(col, X.rule_bellerophon_underflow_order, facts)
+        guarded_soft(col, X.rule_quorem_correction, facts)
+        guarded_soft(col, X.rule_error_accounting, facts)
